@@ -15,6 +15,7 @@ func setPlaceholderNames(n *ast.MsgNode) {
 	// Step 1: Determine representative nodes and build preliminary map
 	var (
 		baseNameToRepNodes  = make(map[string][]ast.Node)
+		baseNames           []string // keys of baseNameToRepNodes, in order of first appearance.
 		equivNodeToRepNodes = make(map[ast.Node]ast.Node)
 	)
 
@@ -36,6 +37,7 @@ func setPlaceholderNames(n *ast.MsgNode) {
 
 		if nodes, ok := baseNameToRepNodes[baseName]; !ok {
 			baseNameToRepNodes[baseName] = []ast.Node{node}
+			baseNames = append(baseNames, baseName)
 		} else {
 			var isNew = true
 			var str = node.String()
@@ -53,8 +55,12 @@ func setPlaceholderNames(n *ast.MsgNode) {
 	}
 
 	// Step 2: Build final maps of name to representative node
+	// (in order of first appearance, as the official implementation does: the
+	// names given depend on the order when a generated name like X_1 is also a
+	// base name, and ranging over the map made them differ from run to run.)
 	var nameToRepNodes = make(map[string]ast.Node)
-	for baseName, nodes := range baseNameToRepNodes {
+	for _, baseName := range baseNames {
+		var nodes = baseNameToRepNodes[baseName]
 		if len(nodes) == 1 {
 			nameToRepNodes[baseName] = nodes[0]
 			continue
